@@ -150,7 +150,7 @@ def handle (line : String) : String :=
       String.ofList ((List.range 240).flatMap cell)
     | _, _, _ => "bad-op"
   | ["static"] =>
-    s!"{showOpt (factorial int32 5)} {showOpt (binomial int32 10 5)} {showOpt (binomial int32 7 7)} {showOpt (binomial int32 (-1) (-1))} {showOpt (binomial int64 6 3)}"
+    s!"{showOpt (binomial int32 7 7)} {showOpt (binomial int32 (-1) (-1))}"
   | ["mfr", st, rs, v, e] =>
     match parseStyle? st, parseRStyle? rs, v.toNat?, e.toNat? with
     | some s, some r, some v, some e =>
